@@ -167,6 +167,14 @@ pub fn worker(case: &Value) -> Value {
                 bases.push((prog, format!("fault|{}|{}|pos{}|{}", FAULTS[f], CONTAINERS[c], p, HANDLERS[h])));
             }
         }
+    } else if case["src"].as_str() == Some("expr") {
+        // SELECT CASE whose tests are expressions / values of another type than the subject (C01 axis S), conditions
+        // with AND / OR whose operands fail (C01 axis E)
+        let mut all = vcore::gen01::case_expression_programs();
+        all.extend(vcore::gen01::failing_condition_programs());
+        for (prog, label) in all.into_iter().skip(lo).take(hi - lo) {
+            bases.push((prog, format!("expr|{}", label)));
+        }
     } else if case["src"].as_str() == Some("decl") {
         // declarations and DATA statements inside every kind of block (taken and not taken): what a block holds
         // besides executable statements must survive a respelling of the block too
@@ -314,6 +322,15 @@ pub fn drive(tier: &str) -> i32 {
         }
         plan.push(json!({"base": "a DIM of a record / static array / dynamic array / typed scalar, or a DATA statement, inside every kind of block (taken, not taken, never entered), main module and SUB", "base_programs": total}));
     }
+    {
+        let total = vcore::gen01::case_expression_programs().len() + vcore::gen01::failing_condition_programs().len();
+        let mut lo = 0;
+        while lo < total {
+            cases.push(json!({"src": "expr", "lo": lo, "hi": (lo + 12).min(total)}));
+            lo += 12;
+        }
+        plan.push(json!({"base": "SELECT CASE whose tests are expressions or values of another numeric type than the subject (16 test forms x 5 subjects), AND / OR conditions with a failing operand in 9 kinds of condition", "base_programs": total}));
+    }
     let total_cases = cases.len();
     let cap = run.wall_cap_s;
     let t0 = run.reporter.start;
@@ -328,7 +345,7 @@ pub fn drive(tier: &str) -> i32 {
     let group = super::run_text_group(&mut run, &pool, "harvested texts rewritten at token level", &harvested, 20, &json!({"g": "harvested"}));
     plan.push(group);
     let mut ev = Evidence::new("exploration");
-    ev.set("rule", "harvested: every program text embedded in the repository's tests and fixtures that runs, rewritten at token level at all sites by FOR without STEP -> STEP 1, WHILE / WEND -> DO WHILE / LOOP, DO / LOOP UNTIL c -> WHILE NOT (c) when c is a single comparison. base programs: every ordered forest of n construct nodes over 15 construct kinds (see C01 axis A), children in the first or last body, at module level or inside a SUB; and the C05 programs with one failing statement (3 fault kinds x 3 positions x 7 handler modes) inside an IF / ELSE / ELSEIF / single-line IF / CASE / loop body, so that the rewritten construct is also entered and left through the error path; and the C04 / C01 programs that hold a DIM (record, static or dynamic array, typed scalar) or a DATA statement inside every kind of block, taken or not, so that what a block holds besides executable statements survives the respelling of the block. Every base program is also compared with itself written with each loop / SELECT CASE on one source line. Rewrite rules (FOR->WHILE with explicit limit/step temporaries, WHILE->DO WHILE, DO UNTIL c->DO WHILE NOT (c), SELECT CASE->IF/ELSEIF chain on a temporary, single-line IF->block IF, FOR->FOR STEP 1, loop body->IF -1 THEN body END IF) are applied as AST-to-AST functions at every applicable site alone and at all sites together; original and rewritten text are both run on the real pipeline; stdout, LPT1 and end class must be equal. Non-trivial = every rewritten statement was executed in the original run (reference trace).");
+    ev.set("rule", "harvested: every program text embedded in the repository's tests and fixtures that runs, rewritten at token level at all sites by FOR without STEP -> STEP 1, WHILE / WEND -> DO WHILE / LOOP, DO / LOOP UNTIL c -> WHILE NOT (c) when c is a single comparison. base programs: every ordered forest of n construct nodes over 15 construct kinds (see C01 axis A), children in the first or last body, at module level or inside a SUB; and the C05 programs with one failing statement (3 fault kinds x 3 positions x 7 handler modes) inside an IF / ELSE / ELSEIF / single-line IF / CASE / loop body, so that the rewritten construct is also entered and left through the error path; and the C04 / C01 programs that hold a DIM (record, static or dynamic array, typed scalar) or a DATA statement inside every kind of block, taken or not, so that what a block holds besides executable statements survives the respelling of the block; and the C01 programs of axis S (SELECT CASE tests that are expressions, FUNCTION calls, values of another numeric type than the subject) and axis E (AND / OR conditions with a failing operand). Every base program is also compared with itself written with each loop / SELECT CASE on one source line. Rewrite rules (FOR->WHILE with explicit limit/step temporaries, WHILE->DO WHILE, DO UNTIL c->DO WHILE NOT (c), SELECT CASE->IF/ELSEIF chain on a temporary, single-line IF->block IF, FOR->FOR STEP 1, loop body->IF -1 THEN body END IF) are applied as AST-to-AST functions at every applicable site alone and at all sites together; original and rewritten text are both run on the real pipeline; stdout, LPT1 and end class must be equal. Non-trivial = every rewritten statement was executed in the original run (reference trace).");
     ev.set("exhaustive", !run.capped);
     ev.set("plan", json!(plan));
     ev.assume("the rewrite functions are correct by construction on the generated subset (integer counters, integer SELECT subjects, non-zero steps)");
